@@ -1,5 +1,5 @@
 #!/usr/bin/env python3
-"""try_mutants.py [--tier quick] [--only C05-A,...] [--checks C05,C04]
+"""try_mutants.py [--tier quick] [--only C05-A,...] [--checks C05,C04] [--repo /tmp/scratch_worktree]
 Applies each seeded patch to /repo, runs the check(s) of its property, restores /repo, and records in
 seeded/<id>/meta.json which checks report a VIOLATION.  /repo must be clean before."""
 import json, os, subprocess, sys, time
@@ -11,7 +11,9 @@ while args:
     if a == "--tier": tier = args.pop(0)
     elif a == "--only": only = set(args.pop(0).split(","))
     elif a == "--checks": checks = args.pop(0).split(",")
-def sh(cmd, **kw): return subprocess.run(cmd, shell=True, capture_output=True, text=True, **kw)
+    elif a == "--repo": R = args.pop(0)          # a scratch worktree of /repo: checks then run with FLODYM_REPO=<that tree>
+ENV = dict(os.environ, FLODYM_REPO=R)
+def sh(cmd, **kw): return subprocess.run(cmd, shell=True, capture_output=True, text=True, env=ENV, **kw)
 assert sh(f"git -C {R} status --porcelain").stdout.strip() == "", "repo not clean"
 rows = []
 for sid in sorted(os.listdir(f"{V}/seeded")):
